@@ -628,19 +628,25 @@ def condType (sc : Bool) (cond l r : Operand) : Option Ty :=
   | none => none
   | some (t, l', r') =>
     match cond.constval with
-    | some c => some (exprconvert (if c then l' else r') t).ty
+    | some c =>
+      -- the shortcut is taken only when the selected operand is neither an lvalue nor a bit-field
+      -- (fix 7cf2154); otherwise the ordinary `EXPRCOND` node of type `t` is built
+      let sel := exprconvert (if c then l' else r') t
+      some (if !sel.lvalue && sel.width.isNone then sel.ty else t)
     | none => some t
 
 /-- the expression `condexpr` returns: an `EXPRCOND` node of type `t`, or — constant condition —
-the selected operand itself after `exprconvert` (which may leave it untouched: it then still is
-the lvalue / bit-field / constant it was) -/
+the selected operand itself after `exprconvert` when that is neither an lvalue nor a bit-field
+(fix 7cf2154: `(1 ? x : y) = 3` used to be accepted) -/
 def condOperand (sc : Bool) (cond l r : Operand) : Option Operand :=
   if !cond.ty.isScalar then none else
   match condRes sc l r with
   | none => none
   | some (t, l', r') =>
     match cond.constval with
-    | some c => some (exprconvert (if c then l' else r') t)
+    | some c =>
+      let sel := exprconvert (if c then l' else r') t
+      some (if !sel.lvalue && sel.width.isNone then sel else rvalue t)
     | none => some (rvalue t)
 
 theorem condOperand_ty (sc : Bool) (cond l r : Operand) :
@@ -650,7 +656,14 @@ theorem condOperand_ty (sc : Bool) (cond l r : Operand) :
   · rfl
   · cases condRes sc l r with
     | none => rfl
-    | some x => cases cond.constval <;> rfl
+    | some x =>
+      cases cond.constval with
+      | none => rfl
+      | some c =>
+        obtain ⟨t, l', r'⟩ := x
+        simp only [Bool.not_true, Bool.false_eq_true, if_false, Option.map_some]
+        cases (!(exprconvert (if c = true then l' else r') t).lvalue &&
+          (exprconvert (if c = true then l' else r') t).width.isNone) <;> rfl
 
 inductive UnOp
   | addr | deref | plus | minus | bnot | lnot | sizeofE | alignofE | preinc | predec | postinc | postdec
